@@ -441,6 +441,7 @@ def run_fuzz(pid, r, res, outdir):
     mod = r.get("module", "harness")
     env = env_base()
     env["VERIF_OUT"] = outdir
+    env["VERIF_SHARD"] = "fuzz-" + r["test"]
     cache = os.path.join(WORK, "build", "fuzzcache-%s" % r["test"])
     shutil.rmtree(cache, ignore_errors=True)
     cmd = ["go", "test", "-tags", TAG, "-vet=off", "-run", "^$", "-fuzz", "^%s$" % r["test"], "-fuzztime", r.get("fuzztime", "60s"),
@@ -463,7 +464,13 @@ def run_fuzz(pid, r, res, outdir):
             shutil.move(src, dst)
         except Exception:
             dst = src
-        res.violations.append((pid, dst, out[-800:]))
+        # the harness writes its own JSON replay file (replayable without the fuzzer) when the oracle fails; a bare
+        # crash (panic in the library) only leaves the fuzzer's input file
+        jv = VIOL_RE.findall(out)
+        if jv and os.path.exists(jv[-1][1]):
+            res.violations.append((pid, jv[-1][1], jv[-1][2].strip()[:600] + " (fuzzer input kept as %s)" % dst))
+        else:
+            res.violations.append((pid, dst, out[-800:]))
     elif p.returncode != 0:
         res.inconclusive.append("fuzz %s exit %d\n%s" % (r["test"], p.returncode, out[-2000:]))
     shutil.rmtree(cache, ignore_errors=True)
